@@ -75,7 +75,12 @@ def check_valid_signature(sig: bytes) -> None:
 def check_low_der_signature(sig_pair: tuple[int, int], generator: Any) -> None:
     # IsLowDERSignature
     r, s = sig_pair
-    hi_s = generator.order() - s
+    order = generator.order()
+    if r >= order or s >= order:
+        # an overflowing R or S makes the consensus parser read the signature as (0, 0),
+        # which is not "high": the signature simply fails to verify later
+        return
+    hi_s = order - s
     if hi_s < s:
         raise ScriptError("signature has high S value", errno.SIG_HIGH_S)
 
